@@ -734,6 +734,16 @@ fn val_family(o: &mut Out, r: &mut Rng, n: usize, batched: bool) {
     // y_r = 0 only: Y_1.. are the identity -> refused (non-auditor masking commitments)
     o.op(&format!("{}.zero-yr", name), &format!("mprove R {} {} {} {} {}", name, mw, ZERO_PT, hs(&rand_nonzero(r)), zeros(k)));
     for ns in nonce_subsets(r, 2) { o.op(&format!("{}.zero-nonce-subset", name), &format!("mprove - {} {} {} {}", name, mw, ns, zeros(k))); }
+    // masking nonces related to the witness: equal to it (then Y_0 = C and Y_i = D_i), its negative, its double; any
+    // nonces give a valid proof as long as no masking commitment is the identity
+    if !batched {
+        let sc = |h: &str| Scalar::from_bytes_mod_order(unhex(h).unwrap().try_into().unwrap());
+        let (x, rr) = (sc(&toks[0]), sc(&toks[1]));
+        for (yr, yx) in [(rr, x), (-rr, -x), (rr + rr, x + x), (rr, Scalar::ZERO), (rr, x + Scalar::ONE), (x, rr)] {
+            if yr == Scalar::ZERO { continue; }
+            o.op(&format!("{}.nonce-related-to-witness", name), &format!("mprove A {} {} {} {} {}", name, mw, hs(&yr), hs(&yx), zeros(k)));
+        }
+    }
     // zero amount(s) with zero nonces: the response z_x is then exactly zero, a canonical scalar like any other
     {
         let (_, mw0) = mk(r, 0, 0, None);
@@ -855,6 +865,28 @@ pub fn gen_c03(o: &mut Out, tier: &str, seed: u64) {
             }
             o.op("cap.at-cap-zero-opening.wrong-branch", &format!("mprove R cap eq {} {} {} {} {} {}", pts(&st3), hs(&Scalar::from(st3.delta)), hs(&st3.rd), hs(&st3.rc), nonces(&mut r, 5), zeros(3)));
             o.op("cap.at-cap-zero-opening.wrong-opening", &format!("mprove R cap max {} {} {} {} {} {}", pts(&st3), hs(&Scalar::ONE), ZERO_PT, ZERO_PT, nonces(&mut r, 5), zeros(3)));
+        }
+        // a sub-challenge of zero (the whole challenge on the other branch): the branch carrying no challenge weight is
+        // still checked (Y_max = z_max*H, resp. the two equality equations with c_eq = 0)
+        {
+            let z = Scalar::ZERO;
+            let five = |r: &mut Rng, a: Scalar, b: Scalar| format!("{} {} {} {} {}", hs(&a), hs(&b), hs(&rand_scalar(r)), hs(&rand_scalar(r)), hs(&rand_scalar(r)));
+            // real equality branch, simulated max branch with c_max = 0: consistent -> accepted; with a residual on Y_max -> refused
+            let zm = rand_scalar(&mut r);
+            let n = five(&mut r, zm, z);
+            o.op("cap.zero-cmax.consistent", &format!("mprove A cap eq {} {} {} {} {} {}", pts(&st), hs(&Scalar::from(st.delta)), hs(&st.rd), hs(&st.rc), n, zeros(3)));
+            for v in [vec![1i8, 0, 0], vec![-1, 0, 0], vec![2, 0, 0]] {
+                let zm = rand_scalar(&mut r);
+                let n = five(&mut r, zm, z);
+                o.op("cap.zero-cmax.max-residual", &format!("mprove R cap eq {} {} {} {} {} {}", pts(&st), hs(&Scalar::from(st.delta)), hs(&st.rd), hs(&st.rc), n, offsets(&v, &rp)));
+            }
+            // real max branch, simulated equality branch with c_eq = 0
+            let n = format!("{} {} {} {} {}", hs(&rand_scalar(&mut r)), hs(&rand_scalar(&mut r)), hs(&rand_scalar(&mut r)), hs(&z), hs(&rand_scalar(&mut r)));
+            o.op("cap.zero-ceq.consistent", &format!("mprove A cap max {} {} {} {} {} {}", pts(&st2), hs(&st2.rp), ZERO_PT, ZERO_PT, n, zeros(3)));
+            for v in [vec![0i8, 1, 0], vec![0, 0, 1], vec![0, 1, -1]] {
+                let n = format!("{} {} {} {} {}", hs(&rand_scalar(&mut r)), hs(&rand_scalar(&mut r)), hs(&rand_scalar(&mut r)), hs(&z), hs(&rand_scalar(&mut r)));
+                o.op("cap.zero-ceq.eq-residual", &format!("mprove R cap max {} {} {} {} {} {}", pts(&st2), hs(&st2.rp), ZERO_PT, ZERO_PT, n, offsets(&v, &rp)));
+            }
         }
         // every max_value class with the same commitments: proof built for another max_value
         for m in maxes {
